@@ -60,6 +60,11 @@ RULE = ('corpus, then random cases over {pupil->image, image->pupil, pupil->imag
         'Refusals: wavefronts without pixelscale and/or with 0-d field data (scalar planes), with windows that are evaluated or empty, '
         'and the order of the checks (type, mask shape, empty mask, fields). Wavefront.insert(out, weight) on pupil wavefronts and on '
         'propagated ones (segmented: coherent sums), any out shape, weights incl. 0, negative and the default. '
+        'Object histories: planes with an OPD (k*wavelength/den, linear part) on which copies were taken and tilt fitted NOT in place '
+        '(fit_tilt(inplace=False), copy()+fit, deepcopy, pickle) before the ORIGINAL is used; operator spellings w*p, p*w, w*=p, '
+        'p.multiply(w); the caller\'s numpy error state (raise / ignore, must be unchanged afterwards) and warnings-as-errors; uint8 / int8 / '
+        'uint16 shape and oversample; one-layer mask cubes; a refused call in the middle of a history; every .field / .intensity array '
+        'returned in a history is held to the end and another one is overwritten in place (neither may be library memory). '
         'lentil is imported afresh for every case, so each replay is '
         'self-contained. non-trivial = history, or non-square or prop_shape < shape or mask or per-axis scales')
 
@@ -159,9 +164,19 @@ def plane_masks(spec):
     return [(x != 0).astype(int) for x in m]
 
 
+def opd_turns(spec):
+    """the plane's OPD in waves, as exact fractions k/den of a turn (None if the plane has no OPD)"""
+    if spec.get('opd') is None:
+        return None
+    den = int(spec['opd_den'])
+    return np.array(spec['opd'], dtype=np.int64) % den / float(den)
+
+
 def transmission(spec):
-    """complex transmission of the plane at every sample: amplitude inside the mask(s), 0 outside"""
-    return amp_np(spec) * sum(plane_masks(spec))
+    """complex transmission of the plane at every sample: amplitude * exp(2 pi i opd / wavelength) inside the mask(s), 0 outside"""
+    T = amp_np(spec) * sum(plane_masks(spec))
+    t = opd_turns(spec)
+    return T if t is None else T * np.exp(2j * np.pi * t)
 
 
 def plane_phasors(spec):
@@ -261,6 +276,7 @@ def wrap_array(a, how):
 
 
 _HANDED = []      # (what, array handed to lentil, private copy) for the case being run
+_KEPT = []
 
 
 def handed(what, a):
@@ -285,6 +301,53 @@ def plane_arrays(spec):
         A = A * A.dtype.type(2.0 ** spec['aexp'])
     mask = None if spec.get('mask') is None else np.array(spec['mask'], dtype=NPDT.get(spec.get('mdtype'), int))
     return handed('amplitude', wrap_array(A, spec.get('awrap'))), handed('plane mask', mask)
+
+
+def plane_opd(c, spec):
+    """OPD array in metres: k * wavelength / den (0 if the plane has none)"""
+    if spec.get('opd') is None:
+        return 0
+    k = np.array(spec['opd'], dtype=float)
+    return handed('opd', k * (fl(c['wl']) / int(spec['opd_den'])))
+
+
+def plane_history(p, ops):
+    """what happened to the Plane OBJECT before it is used: copies taken and tilt fitted on the copies (never in place);
+    the original must be what it was"""
+    import copy as _copy
+    import pickle as _pickle
+    kept = []
+    for op in ops or []:
+        if op == 'fit_tilt_copy':
+            kept.append(p.fit_tilt(inplace=False))
+        elif op == 'fit_tilt_default':
+            kept.append(p.fit_tilt())
+        elif op == 'copy_fit':
+            q = p.copy()
+            q.fit_tilt(inplace=True)
+            kept.append(q)
+        elif op == 'copy':
+            kept.append(p.copy())
+        elif op == 'deepcopy_fit':
+            kept.append(_copy.deepcopy(p).fit_tilt(inplace=True))
+        elif op == 'pickle_fit':
+            kept.append(_pickle.loads(_pickle.dumps(p)).fit_tilt(inplace=True))
+        else:
+            raise ValueError(op)
+    return p, kept
+
+
+def times(w, p, form):
+    """Wavefront x Plane in its operator spellings"""
+    if form == 'pw':
+        return p * w
+    if form == 'imul':
+        held = w
+        w *= p
+        return w
+    if form == 'method':
+        return p.multiply(w)
+    return w * p
 
 
 def mk_plane(lentil, c, spec):
@@ -323,19 +386,28 @@ def build_wavefront(lentil, c):
         return (lentil.Wavefront(wl, pixelscale=ps, focal_length=z, ptype=lentil.image)
                 * lentil.Image(amplitude=A, mask=mask, pixelscale=ps))
     A, mask = plane_arrays(c)
+    opd = plane_opd(c, c)
     if start in ('pupil', 'roundtrip'):
-        return lentil.Wavefront(wl) * lentil.Pupil(amplitude=A, mask=mask, pixelscale=dx, focal_length=z)
-    if start == 'image':
-        return (lentil.Wavefront(wl, pixelscale=dx, focal_length=z, ptype=lentil.image)
-                * lentil.Image(amplitude=A, mask=mask, pixelscale=dx))
-    # a wavefront of type none: plain Plane
-    return lentil.Wavefront(wl, pixelscale=dx, focal_length=z) * lentil.Plane(amplitude=A, mask=mask, pixelscale=dx)
+        w0 = lentil.Wavefront(wl)
+        p = lentil.Pupil(amplitude=A, opd=opd, mask=mask, pixelscale=dx, focal_length=z)
+    elif start == 'image':
+        w0 = lentil.Wavefront(wl, pixelscale=dx, focal_length=z, ptype=lentil.image)
+        p = lentil.Image(amplitude=A, opd=opd, mask=mask, pixelscale=dx)
+    else:
+        # a wavefront of type none: plain Plane
+        w0 = lentil.Wavefront(wl, pixelscale=dx, focal_length=z)
+        p = lentil.Plane(amplitude=A, opd=opd, mask=mask, pixelscale=dx)
+    p, kept = plane_history(p, c.get('plane_ops'))
+    _KEPT[:] = kept                       # the derived planes stay alive, as in a caller's program
+    return times(w0, p, c.get('mulform'))
 
 
 def arg_form(v, form):
     """an argument in one of its legal spellings: per-axis values as tuple / list / ndarray, a single value as a Python
     number, a numpy scalar, a 0-d array or a one-element array"""
     if isinstance(v, (list, tuple)):
+        if form in ('uint8', 'int8', 'uint16'):
+            return np.array(v, dtype=form)
         return {'tuple': tuple(v), 'list': list(v), 'array': np.array(v)}[form or 'tuple']
     if form == '0d':
         return np.array(v)
@@ -343,12 +415,15 @@ def arg_form(v, form):
         return np.array([v])
     if form == 'npscalar':
         return np.asarray(v)[()]
+    if form in ('uint8', 'int8', 'uint16'):          # small-width integers: the arithmetic must not wrap (values <= 24)
+        return getattr(np, form)(v)
     return v
 
 
 def do_call(lentil, w, call):
     kw = {'pixelscale': arg_form(fl_arg(call['du']), call.get('du_form')),
-          'oversample': np.int64(call['os']) if call.get('os_form') == 'np' else call['os']}
+          'oversample': np.int64(call['os']) if call.get('os_form') == 'np' else
+          getattr(np, call['os_form'])(call['os']) if call.get('os_form') else call['os']}
     if call.get('shape') is not None:
         kw['shape'] = arg_form(call['shape'], call.get('shape_form'))
     if call.get('prop_shape') is not None:
@@ -401,8 +476,19 @@ def fresh_lentil():
 
 
 def _run(c):
+    import warnings
     del _HANDED[:]
-    res = _run0(c)
+    es = c.get('errstate')
+    with warnings.catch_warnings():
+        if c.get('warn_error') and '"matrix"' not in json.dumps(c):     # np.matrix itself warns (PendingDeprecationWarning)
+            warnings.simplefilter('error')
+        with np.errstate(all=es or 'warn'):
+            before = np.geterr()
+            res = _run0(c)
+            after = np.geterr()
+        if after != before and isinstance(res, dict):
+            res.setdefault('mutations', []).append({'step': 0, 'wavefront': -1,
+                                                    'what': f'the numpy error state of the caller was changed {before} -> {after}'})
     d = handed_changed()
     if d and isinstance(res, dict):
         res.setdefault('mutations', []).append({'step': 0, 'wavefront': -1, 'what': d})
@@ -504,6 +590,7 @@ def _run0(c):
         live = [w]
         steps = []
         muts = []
+        held = []
         for k, (src, call, mul) in enumerate(steps_of(c), start=1):
             srcw = live[src]
             if srcw is None:
@@ -513,7 +600,22 @@ def _run0(c):
             snaps = [None if x is None else snapshot(x) for x in live]
             try:
                 w2 = do_call(lentil, srcw, call) if mul is None else srcw * mk_plane(lentil, c, mul)
+                snap_new = snapshot(w2)
                 steps.append(result_of(w2))
+                # the arrays the caller gets are the caller's: keep one of each across the rest of the history, and scribble
+                # over another one - neither may have anything to do with what the library holds
+                f_keep, i_keep = w2.field, w2.intensity
+                held.append((k, 'field', f_keep, np.array(f_keep, copy=True)))
+                held.append((k, 'intensity', i_keep, np.array(i_keep, copy=True)))
+                if f_keep.ndim == 2 and f_keep.size:
+                    g = w2.field
+                    g[...] = -7
+                    h = w2.intensity
+                    h[...] = -3
+                    d = changed(w2, snap_new)
+                    if d:
+                        muts.append({'step': k, 'wavefront': -2, 'what': f'editing the arrays returned by .field / .intensity of the '
+                                     f'result of call {k} changed that wavefront ({d}): they are views of its own memory'})
             except Exception as e:
                 w2 = None
                 steps.append({'err': type(e).__name__})
@@ -523,6 +625,11 @@ def _run0(c):
                     if d:
                         muts.append({'step': k, 'wavefront': j, 'what': d})
             live.append(w2)
+        for k, name, arr, keep in held:
+            if arr.shape != keep.shape or not np.array_equal(arr, keep, equal_nan=True):
+                muts.append({'step': len(steps), 'wavefront': -2, 'what': f'the .{name} array returned after call {k} was changed by a '
+                             f'later call of the library (it is a view of memory the library re-uses)'})
+                break
         res['steps'] = steps
         res['mutations'] = muts
         return res
@@ -1026,7 +1133,9 @@ def oracle_refuse(c, impl):
 
 def mutation_msg(m):
     if m.get('wavefront') == -1:
-        return m['what'] + ' by the calls of this case (arrays handed to the public API belong to the caller)'
+        return m['what'] + ' by the calls of this case (arrays handed to the public API and the process state belong to the caller)'
+    if m.get('wavefront') == -2:
+        return m['what']
     return (f'call {m["step"]} changed wavefront #{m["wavefront"]} (0 = the initial wavefront, j = result of call j) '
             f'that the caller still holds: {m["what"]}; a later propagation of it no longer sees the same input plane')
 
@@ -1168,6 +1277,8 @@ def rnd_pupil(rng, maxn):
         mask = [[1 if (a0 <= r <= a1 and b0 <= cc <= b1 and rng.random() < 0.85) else 0 for cc in range(m)] for r in range(n)]
         if not any(v for row in mask for v in row):
             mask[a0][b0] = 1
+        if rng.random() < 0.25:
+            mask = [mask]                    # a mask cube with a single layer (1, r, c)
     elif t < 0.42 and n * m >= 4:
         # segmented plane: 2-3 disjoint boxes (split along rows or columns)
         segs = []
@@ -1247,7 +1358,11 @@ def rnd_forms(rng, call):
     if not isinstance(call.get('shape'), list) and not isinstance(call.get('prop_shape'), list) \
             and (call.get('shape') is not None or call.get('prop_shape') is not None) and rng.random() < 0.4:
         call['shape_form'] = rng.choice(['0d', 'arr1', 'npscalar'])
-    if rng.random() < 0.15:
+    if rng.random() < 0.2:
+        call['os_form'] = rng.choice(['np', 'uint8', 'int8', 'uint16'])
+    if (call.get('shape') is not None or call.get('prop_shape') is not None) and rng.random() < 0.12:
+        call['shape_form'] = rng.choice(['uint8', 'int8', 'uint16'])
+    if False:
         call['os_form'] = 'np'
     if call.get('omask') is not None and rng.random() < 0.2:
         call['omask_wrap'] = rng.choice(['ma', 'ma_masked', 'matrix', 'subclass'])
@@ -1538,6 +1653,20 @@ def rnd_history(rng, wshape, maxs):
         if n >= 4:
             steps.append({'src': 0, 'call': json.loads(json.dumps(c1))})      # the very first call again
         tag = 'chain'
+    if rng.random() < 0.25:
+        # a REFUSED call in the middle (all-zero mask -> IndexError, or a mask of the wrong shape -> ValueError): the calls after
+        # it must be unaffected
+        pos = rng.randint(1, len(steps) - 1)
+        bad = json.loads(json.dumps(steps[0]['call']))
+        S, _P = call_shapes(bad, wshape)
+        Ro, Co = S[0] * bad['os'], S[1] * bad['os']
+        bad['omask'] = [[0] * Co for _ in range(Ro)] if rng.random() < 0.6 else [[1] * (Co + 1) for _ in range(Ro + 1)]
+        for k in ('omask_dtype', 'omask_wrap'):
+            bad.pop(k, None)
+        steps.insert(pos, {'src': 0, 'call': bad})
+        for st in steps[pos + 1:]:
+            if st['src'] >= pos + 1:
+                st['src'] += 1
     return steps, tag
 
 
@@ -1618,6 +1747,35 @@ def generate(rng, tier):
             continue
         if any(abs(a) > 2 for pr in al for a in pr):
             continue
+        # the object history of the plane, operator spellings, the caller's numpy error state and warnings filters
+        if d in ('pupil', 'image', 'roundtrip', 'history') and 'start' in c or d in ('pupil', 'image', 'roundtrip'):
+            if c.get('mask') is None or not isinstance(c['mask'][0][0], list):
+                if rng.random() < 0.22:
+                    # an OPD with a linear part (a tilt a fit would find), in units of wavelength/den: exact phasors
+                    n_, m_ = wshape
+                    den = rng.choice([4, 8, 16])
+                    a_, b_ = rng.randint(-3, 3), rng.randint(-3, 3)
+                    c['opd'] = [[a_ * r + b_ * cc + ((r * cc) % 3 if rng.random() < 0.5 else 0) + rng.randint(-1, 1)
+                                 for cc in range(m_)] for r in range(n_)]
+                    c['opd_den'] = den
+                    if not c.get('adtype'):
+                        # a real amplitude, as the OPD-carrying planes of lentil have (a complex "amplitude" makes fit_tilt
+                        # return complex angles)
+                        for row in c['A']:
+                            for v in row:
+                                v[1] = 0
+                        if not any(v[0] for row in c['A'] for v in row):
+                            c['A'][0][0][0] = 1
+                        c['adtype'] = 'float'
+                    if min(wshape) >= 2 and rng.random() < 0.7 and c.get('start', d) != 'image' and \
+                            sum(1 for row in c['A'] for v in row if v != [0, 0]) >= 4:
+                        c['plane_ops'] = [rng.choice(['fit_tilt_copy', 'fit_tilt_default', 'copy_fit', 'copy', 'deepcopy_fit',
+                                                      'pickle_fit']) for _ in range(rng.randint(1, 2))]
+            if rng.random() < 0.2:
+                c['mulform'] = rng.choice(['pw', 'imul', 'method'])
+        if rng.random() < 0.2:
+            c['errstate'] = rng.choice(['raise', 'ignore'])
+            c['warn_error'] = rng.random() < 0.5
         # the same data in other legal guises: ndarray subclasses, amplitudes scaled over many decades
         if rng.random() < 0.15:
             c['awrap'] = rng.choice(['ma', 'ma_masked', 'matrix', 'subclass'])
@@ -1645,6 +1803,10 @@ def classify(c):
         k += '/' + c['awrap']
     if c.get('aexp'):
         k += '/scaled'
+    if c.get('opd') is not None:
+        k += '/opd'
+    if c.get('plane_ops'):
+        k += '/plane-history'
     return k
 
 
